@@ -45,7 +45,14 @@ func caseList(seed int64, perType int) []tcase {
 		g.MaxElems = 6
 		for _, td := range set.Schema.Types {
 			for i := 0; i < perType; i++ {
-				out = append(out, tcase{set, td.FullName(), g.Value(corpus.R(td.FullName()), 0)})
+				v := g.Value(corpus.R(td.FullName()), 0)
+				out = append(out, tcase{set, td.FullName(), v})
+				if i == 1 {
+					// the same value with one map grown beyond a thousand entries (writers that buffer map entries)
+					if big := model.Clone(v); model.GrowFirstMap(big, 1030+len(out)%100) {
+						out = append(out, tcase{set, td.FullName(), big})
+					}
+				}
 			}
 		}
 	}
